@@ -85,12 +85,8 @@ MUTANTS = [
     ("m10a", ["C10", "C02"], "_omit also omits the response result", [(H, '''        special = lsp_types.is_special_property(cls, prop)
         return not special''', '''        special = lsp_types.is_special_property(cls, prop) and prop != "result"
         return not special''')], None),
-    ("m11a", ["C11", "C04", "C05"], "a required field given default=None", [(T, '''    new_text: str = attrs.field(validator=attrs.validators.instance_of(str))
-    """The string to be inserted. For delete operations use an
-    empty string."""''', '''    new_text: str = attrs.field(default=None)
-    """The string to be inserted. For delete operations use an
-    empty string."""''')], None),
-    ("m12a", ["C12"], "INTEGER_MAX_VALUE = 2**31", [(V, "INTEGER_MAX_VALUE = 2**31 - 1", "INTEGER_MAX_VALUE = 2**31")], None),
+    ("m11a", ["C11", "C04", "C05"], "a required field given default=None", [(T, '''    unique: UniquenessLevel = attrs.field()''', '''    unique: UniquenessLevel = attrs.field(default=None)''')], None),
+    ("m12a", ["C12"], "INTEGER_MAX_VALUE = 2**31", [(V, "INTEGER_MAX_VALUE = 2**31 - 1\n\n\ndef integer_validator", "INTEGER_MAX_VALUE = 2**31\n\n\ndef integer_validator")], None),
     ("m12b", ["C12", "C11"], "uinteger minimum -1", [(V, "UINTEGER_MIN_VALUE = 0", "UINTEGER_MIN_VALUE = -1")], None),
     ("m13a", ["C13", "C04", "C05"], "one enum member deleted", [(T, '''    Unnecessary = 1
 ''', '')], None),
